@@ -147,6 +147,8 @@ def handle (inp out : Sexp) : CaseResult :=
           (if queries.any tie then ["q-tie-later-wins"] else []) ++
           (if queries.any mixed then ["q-more-fixed-wins"] else []) ++
           (if queries.any paramMatch then ["q-param-match"] else []) ++
+          (if iSet.length ≥ 64 then ["big-set"] else []) ++
+          (if queries.any (nMatch · > 32) then ["q-over32-matches"] else []) ++
           (if queries.any (fun g => g.qubits.any (fun q => match q with | .placeholder _ => true | _ => false))
             then ["q-placeholder"] else [])
         { agree := decide (mSteps = steps) && decide (mAns = ans), specOk := specOk,
@@ -171,6 +173,8 @@ def handle (inp out : Sexp) : CaseResult :=
           (if queries.any (fun m => (ms m).length == 0) then ["m-nomatch"] else []) ++
           (if queries.any (fun m => (ms m).length == 1) then ["m-unique"] else []) ++
           (if queries.any (fun m => (ms m).length ≥ 2) then ["m-multi"] else []) ++
+          (if iSet.length ≥ 64 then ["big-set"] else []) ++
+          (if queries.any (fun m => (ms m).length > 32) then ["m-over32-matches"] else []) ++
           (if queries.any (fun m => (ms m).any (fun c => exactRank c == 1) && (ms m).any (fun c => exactRank c == 0))
             then ["m-exact-beats-variable"] else []) ++
           (if queries.any (fun m => ((ms m).filter (fun c => exactRank c == 1)).length ≥ 2) then ["m-tie-later-wins"] else [])
@@ -196,7 +200,8 @@ def handle (inp out : Sexp) : CaseResult :=
         | _ => false
       { agree := mOut == out, specOk := specOk,
         nontrivial := (set.filter (fun c => gateMatchesB c gate)).length ≥ 2,
-        tags := ["prog-gate", if a.isSome then "prog-expanded" else "prog-unexpanded"],
+        tags := ["prog-gate", if a.isSome then "prog-expanded" else "prog-unexpanded"] ++
+          (if (set.filter (fun c => gateMatchesB c gate)).length > 32 then ["prog-over32-matches"] else []),
         detail := s!"model={mOut} impl={out}" }
     | _, _ => .bad s!"undecodable proggate case {inp}"
   | .list [.atom "progmeas", hist, m] =>
@@ -214,7 +219,8 @@ def handle (inp out : Sexp) : CaseResult :=
         | _ => false
       { agree := mOut == out, specOk := specOk,
         nontrivial := (set.filter (fun c => measMatchesB c meas)).length ≥ 2,
-        tags := ["prog-meas", if a.isSome then "prog-expanded" else "prog-unexpanded"],
+        tags := ["prog-meas", if a.isSome then "prog-expanded" else "prog-unexpanded"] ++
+          (if (set.filter (fun c => measMatchesB c meas)).length > 32 then ["prog-over32-matches"] else []),
         detail := s!"model={mOut} impl={out}" }
     | _, _ => .bad s!"undecodable progmeas case {inp}"
   | _ => .bad s!"undecodable input {inp}"
